@@ -1215,6 +1215,74 @@ func concVersionTag(maxpend int) string {
 	return s.finish("vertag", map[uint16]bool{})
 }
 
+// kind "vermid": a Tversion in the middle of a session, while A (tag t) executes, B (tag t) waits behind it
+// and C (another tag) executes: none of them may be answered after the Rversion (their replies would carry
+// the old msize and dialect); the whole tag group is cancelled, not only its newest member
+func concVersionMid(maxpend int) string {
+	s := newConcSession(maxpend, false)
+	s.setup()
+	const gt = 310
+	s.send(mkFrame(&gmsg{kind: go9p.Tread, a: 0, b: 0, c: 16}, true, gt))
+	a := s.waitReq(gt, 2*time.Second)
+	if a == nil {
+		return s.finish("vermid", nil)
+	}
+	s.waitLabel("OC 2", 2*time.Second)
+	s.send(mkFrame(&gmsg{kind: go9p.Tread, a: 0, b: 1, c: 16}, true, gt), statReq(411, 0))
+	if c := s.waitReq(411, 2*time.Second); c != nil {
+		s.waitLabel("OC 4", 2*time.Second)
+	}
+	s.send(mkFrame(&gmsg{kind: go9p.Tversion, a: 4096, s1: []byte("9P2000.u")}, false, go9p.NOTAG))
+	s.waitReplies(3, 2*time.Second)
+	nbefore := len(s.conn.frames())
+	// release whatever the implementation was handed, oldest first
+	done := map[*concReq]bool{}
+	deadline := time.Now().Add(100 * time.Millisecond)
+	for time.Now().Before(deadline) {
+		s.mu.Lock()
+		called := map[int]bool{}
+		for _, l := range s.labels {
+			if strings.HasPrefix(l, "OC ") {
+				id, _ := strconv.Atoi(l[3:])
+				called[id] = true
+			}
+		}
+		var pend []*concReq
+		for i, cr := range s.reqInfo {
+			if i >= 2 && !done[cr] && called[i] {
+				pend = append(pend, cr)
+			}
+		}
+		s.mu.Unlock()
+		for _, cr := range pend {
+			done[cr] = true
+			cr.released <- concAction{answers: 1, payload: []byte(fmt.Sprintf("v-%d", cr.req.Tc.Offset))}
+		}
+		time.Sleep(100 * time.Microsecond)
+	}
+	s.settle()
+	fr := s.conn.frames()
+	nver := 0
+	for i, f := range fr {
+		if f[4] == go9p.Rversion {
+			nver++
+			continue
+		}
+		tag := uint16(f[5]) | uint16(f[6])<<8
+		if nver >= 2 && i >= nbefore-1 && (tag == gt || tag == 411) {
+			s.mu.Lock()
+			s.note(fmt.Sprintf("C12.reply_after_rversion_to_a_request_from_before_it|C03.reply_for_tag_no_longer_outstanding_tag=%d", tag))
+			s.mu.Unlock()
+		}
+	}
+	if nver < 2 {
+		s.mu.Lock()
+		s.note("C12.tversion_not_answered")
+		s.mu.Unlock()
+	}
+	return s.finish("vermid", map[uint16]bool{gt: true, 411: true})
+}
+
 // kind "flushgroup1": a Tflush that names a tag shared by several requests: A (tag t) executes, B (tag t) waits
 // behind it, Tflush(t) cancels B; a request C sent under tag t afterwards must still wait for A (one at a time,
 // in arrival order). (The other interaction - a Tflush chained onto A moves on to a later member of the group and
@@ -1671,6 +1739,7 @@ func modeSrvconc(tier string, args []string) {
 			jobs = append(jobs, func() string { return concFlushWalk(mp) })
 			jobs = append(jobs, func() string { return concFlushGroup(mp, 1) })
 			jobs = append(jobs, func() string { return concVersionTag(mp) })
+			jobs = append(jobs, func() string { return concVersionMid(mp) })
 			jobs = append(jobs, func() string { return concFlushPair(mp, false) })
 			jobs = append(jobs, func() string { return concFlushPair(mp, true) })
 			jobs = append(jobs, func() string { return concSlowWrite(mp) })
